@@ -14,7 +14,7 @@ THEOREMS = [P + t for t in (
     "gibbs_commuting", "gibbs_commuting_exp", "gibbs_commuting_steps_independent",
     "gibbs_backend_zero_coupling", "gibbs_zero_coupling_orient", "gibbs_zero_coupling",
     "gibbs_trace_one", "gibbs_hermitian", "gibbs_normalised_hermitian",
-    "compute_fresh", "compute_idempotent", "compute_repeat",
+    "compute_fresh", "compute_idempotent", "compute_repeat", "mps_never_truncated",
     "coeff_is_cell", "coeff_sum_tiling", "guarded_term_inactive", "infl_formulas_are_model", "gibbs_ops_symmetric",
     "total_imaginary_time", "source_orientation", "unique_sums_class",
     "eta_fallback_accurate", "corr_fallback_accurate", "matsubara_eta_integrand")]
@@ -101,11 +101,17 @@ def gen_case(rng, tier, force=None):
                      "H": [[[z.real, z.imag] for z in row] for row in H.tolist()], "o": o.tolist()}}
 
 
-def make_gibbs(case, n=None, epsrel=1e-13):
+def make_gibbs(case, n=None, epsrel=1e-13, shared=None):
+    """`shared`: dict n_steps -> GibbsParameters; the same parameter object is then used for
+    every model with that number of steps (baths of different temperatures)"""
     import oqupy
     bath = oqupy.Bath(np.diag(case["o"]).astype(complex), case["corr"])
-    return oqupy.GibbsTempo(oqupy.System(case["H"]), bath,
-                            oqupy.GibbsParameters(n or case["n"], epsrel))
+    n = n or case["n"]
+    if shared is None:
+        par = oqupy.GibbsParameters(n, epsrel)
+    else:
+        par = shared.setdefault(n, oqupy.GibbsParameters(n, epsrel))
+    return oqupy.GibbsTempo(oqupy.System(case["H"]), bath, par)
 
 
 def flat(a):
@@ -159,9 +165,10 @@ def correspondence(res, tier, rng, extra_cases=()):
     for i in range(ncase):
         cases.append(gen_case(rng, tier, forced[i] if i < len(forced) else None))
     lines, meta = [], []
+    shared_params = {}      # one GibbsParameters object per n_steps, re-used across temperatures
     for ci, case in enumerate(cases):
         d, n = case["d"], case["n"]
-        g = make_gibbs(case)
+        g = make_gibbs(case, shared=shared_params)
         be = g._backend_instance
         tables = factor_tables(be, n)
         q = np.array(be._prop)
@@ -193,7 +200,7 @@ def correspondence(res, tier, rng, extra_cases=()):
                   "unique " + " ".join(crat(a) + "&" + crat(b) for a, b in zip(*be._ops[1:]))]
         uniq = [TIBaseBackend._unique(be._ops[0]), TIBaseBackend._unique(zip(*be._ops[1:]))]
         meta.append((idx, case, real_states, real_data, data2, coeffs, g._dt, ncalls,
-                     [float(t) for t in dyn.times], be.step, len(be.data), states_after, q, uniq))
+                     [float(t) for t in dyn.times], be.step, len(be.data), states_after, q, uniq, len(be._mps)))
         for k in ("system", "coupling", "sd"):
             res.count("%s=%s" % (k, case["desc"][k]))
         res.count("d=%d" % d)
@@ -203,7 +210,7 @@ def correspondence(res, tier, rng, extra_cases=()):
     if len(out) != len(lines):
         raise fw.Infra("driver returned %d lines for %d inputs" % (len(out), len(lines)))
     for (idx, case, real_states, real_data, data2, coeffs, dt, ncalls, times, bstep, blen,
-         states_after, q, uniq) in meta:
+         states_after, q, uniq, mps_len) in meta:
         desc = dict(case["desc"], compute_calls=ncalls)
         d, n = case["d"], case["n"]
         o_st, o_d1, o_d2, o_hyp, o_cells, o_dt, o_hist, o_u0, o_u1 = out[idx:idx + 9]
@@ -298,6 +305,10 @@ def correspondence(res, tier, rng, extra_cases=()):
                                         " ".join(str(k) for k in range(len(times))), len(times) - 1)
         if want_hist != o_hist:
             res.disagree("compute() history: code %s model %s" % (want_hist[:200], o_hist[:200]), desc)
+        # the chain has one site per completed slice plus the cap: nothing was summed out
+        if mps_len != bstep + 1:
+            res.disagree("len(backend._mps) = %d at step %d: the imaginary-time chain was cut"
+                         % (mps_len, bstep), desc)
         res.case(json.dumps(sample["case"], sort_keys=True),
                  not (desc["coupling"] == "zero" and desc["system"] == "diagonal"), sample)
 
@@ -434,6 +445,42 @@ def repeated_eigenvalue_cases():
     return out
 
 
+def oracle_shared_parameters(res, n=4):
+    """one GibbsParameters object used for baths of different temperatures (both orders) must
+    give what fresh parameter objects give: the step length is 1/(T n_steps) of the CURRENT bath"""
+    import oqupy
+    H = np.array([[0.3, 0.2 - 0.4j], [0.2 + 0.4j, -0.3]])
+    o = [0.5, -0.5]
+
+    def run(T, par):
+        corr = oqupy.PowerLawSD(alpha=0.3, zeta=1.0, cutoff=3.0, cutoff_type="exponential", temperature=T)
+        g = oqupy.GibbsTempo(oqupy.System(H), oqupy.Bath(np.diag(o).astype(complex), corr), par)
+        dyn = g.compute(progress_type="silent")
+        return np.array(g.get_state()), float(dyn.times[-1])
+
+    for temps in ((1.6, 0.7, 0.25), (0.25, 0.7, 1.6)):
+        par = oqupy.GibbsParameters(n, 1e-12)
+        for k, T in enumerate(temps):
+            got, last = run(T, par)
+            want, _ = run(T, oqupy.GibbsParameters(n, 1e-12))
+            err = float(np.abs(got - want).max())
+            if err > 1e-10 or abs(last - 1.0 / T) > 1e-12 / T:
+                res.fail("shared-parameters:temperatures=%s run=%d" % (",".join(map(str, temps)), k),
+                         {"api": "GibbsTempo", "n_steps": n, "temperatures_in_order": list(temps),
+                          "run_index": k, "temperature": T, "error_vs_fresh_parameters": err,
+                          "last_time_label": last, "expected_last_time_label": 1.0 / T,
+                          "hamiltonian": [[[z.real, z.imag] for z in r] for r in H.tolist()],
+                          "coupling_diagonal": o,
+                          "how": "the same GibbsParameters object re-used for a bath of another "
+                                 "temperature does not propagate to 1/T of that bath"})
+
+
+def oracle_long_chain(res, steps=(259, 300)):
+    """more imaginary-time slices than any memory-length constant: still the closed form"""
+    oracle_commuting(res, fixed_commuting_case(), steps=(4,) + tuple(steps),
+                     tag="long chain n_steps in %s (d=2 ohmic-exp T=0.2)" % (list(steps),))
+
+
 def oracle_general(res, case):
     """normalised, Hermitian, positive; repeated compute() returns the same state"""
     g = make_gibbs(case, epsrel=1e-11)
@@ -468,6 +515,10 @@ def replay_case(res, payload):
     elif key.startswith("repeat-compute") or key.startswith("general") or key.startswith("final-label"):
         desc = fi["case"]
         oracle_general(res, case_from_desc(desc))
+    elif key.startswith("shared-parameters"):
+        oracle_shared_parameters(res, fi.get("n_steps", 4))
+    elif key.startswith("commuting") and "long chain" in key:
+        oracle_long_chain(res, steps=(fi.get("n_steps", 259),))
     elif key.startswith("commuting"):
         tag = key.split(" ", 1)[1] if "repeated eigenvalues" in key else None
         oracle_commuting(res, case_from_desc(fi["case"]), steps=(fi.get("n_steps", 2), 2, 5), tag=tag)
@@ -508,6 +559,9 @@ def search(res):
         d = rng.choice([2, 3, 4])
         oracle_commuting(res, gen_case(rng, "quick", {"d": d, "hkind": "diagonal", "coupling": "generic",
                                                      "alpha": rng.choice([0.1, 0.5, 1.0])}))
+    # (2c) one parameter object for several temperatures; chains longer than any memory constant
+    oracle_shared_parameters(res)
+    oracle_long_chain(res)
     # (3) general models: normalised, Hermitian, positive; repeated compute()
     for i in range(5):
         oracle_general(res, gen_case(rng, "quick", {"hkind": "complex", "coupling": "generic"}))
@@ -527,7 +581,9 @@ def run(tier, seed, replay):
         "initial array) to 1e-8 relative; the hypotheses of gibbs_hermitian / gibbs_commuting are "
         "evaluated on the same tensors; coeffs(k) vs the eta cells of the real eta_function (1e-9); "
         "time step, labels, step counter and len(data) after repeated compute() exactly; "
-        "TIBaseBackend._unique (indices, projection, column sums) vs its Lean model exactly.  "
+        "TIBaseBackend._unique (indices, projection, column sums) vs its Lean model exactly; one "
+        "GibbsParameters object per n_steps is shared by all cases (different temperatures); "
+        "len(backend._mps) = step + 1 (chain never cut).  "
         "Non-trivial = not (zero coupling and diagonal H); distinct = distinct case description.")
     res.assumptions = [
         "exact arithmetic; float round-off, SVD truncation (epsrel 1e-13) and QUADPACK error enter "
